@@ -248,8 +248,9 @@ class Contract:
     def __init__(self, func, params, requires=(), ensures=None, exc_ensures=None,
                  raises=None, raises_any=False, invariants=None, uses=(), returns=None,
                  effects=None, concretize=None, native=None, pre_hook=None, post_hook=None,
-                 notes='', propagate_opaque=True, max_paths=None, exit_hook=None, variant=None, cuts=None, call_hook=None, lazy_len=False, model_not_callable=False, numeric_split=False, noreturn=False, measure=None):
+                 notes='', propagate_opaque=True, max_paths=None, exit_hook=None, variant=None, cuts=None, call_hook=None, lazy_len=False, model_not_callable=False, numeric_split=False, noreturn=False, measure=None, exc_hook=None):
         self.func = func
+        self.exc_hook = exc_hook      # callable(E, env_locals, exc): refine the exception a call raises (assumed exceptional postcondition)
         self.measure = measure        # termination measure of a recursive function: int expression over the parameters
         self.params = params
         self.requires = list(requires)
@@ -640,6 +641,8 @@ def _apply_contract(E, c, fn, args, kwargs, node, env, site):
         if cls == 'ParseError':
             # every ParseError of the package carries (message, tag): AST obligation C06.structural.parse_errors_have_message_and_tag
             exc = VExc(cls, [VS(z3.String(E.fresh('message'))), VS(z3.String(E.fresh('tagtext')))], sym=False, uid=E.fresh('exc'))
+        if c.exc_hook:
+            c.exc_hook(E, env.locals, exc)
         E.trace.append(('contract-raise', c.func, exc))
         env.locals['exc'] = exc
         E.old_stash = old
